@@ -16,6 +16,7 @@ import (
 	"runtime/debug"
 	"sort"
 	"sync"
+	"time"
 )
 
 type Ev = map[string]any
@@ -73,6 +74,25 @@ func readJSON(path string, v any) {
 		fatal(path, err)
 	}
 }
+
+// deadline runs one case; a case that does not return within d is reported as a Timeout event (no specification has an
+// action for it) and ends the process with exit code 3: a goroutine that spins cannot be stopped any other way.
+func deadline(out *Out, d time.Duration, fn func()) {
+	done := make(chan struct{})
+	go func() {
+		defer close(done)
+		fn()
+	}()
+	select {
+	case <-done:
+	case <-time.After(d):
+		out.Ev("Timeout", "after_s", int(d.Seconds()))
+		out.Close()
+		os.Exit(3)
+	}
+}
+
+const caseDeadline = 40 * time.Second
 
 type Summary map[string]any
 
